@@ -19,7 +19,7 @@ from bctmc.tally import Tally
 PROPERTY = 'C19'
 RULE = ('3-node designs: all 5^3 assignments of the edge profiles {large +, large -, small +, no effect, constant} (6^3 with '
         '"constant difference" for the paired design), group sizes (2,2),(2,3),(3,2) unpaired and (3,3) paired, threshold in '
-        '{0.5, 3}, tail in {both,left,right}; k=1 with the full relabelling menu (24 / 120 orders, 8 sign patterns), k=2 for '
+        '{0.5, 3} and a threshold exactly equal to an attained statistic (profile with t = 2.0), tail in {both,left,right}; k=1 with the full relabelling menu (24 / 120 orders, 8 sign patterns), k=2 for '
         '(2,2) on a subset (thorough: 4-node designs on a fixed profile set); non-trivial = configuration with at least one '
         'observed component (not rejected as "unsuitable threshold") and >= 2 distinct null values over the relabellings')
 ASSUMPTIONS = ['t statistics re-derived from their definitions in this file (zero pooled variance => 0 as the library '
@@ -35,6 +35,7 @@ PROFILES = {
     'D': ([3, 4, 5], [1, 2, 3]),          # constant paired difference (zero variance of the difference)
     'Q': ([5, 1, 5], [6, 2, 1]),          # effect only under the cross grouping {x0,y0} | {x1,y1}
     '0': ([2, 3, 2.5], [2.5, 2, 3]),      # nothing, with variance
+    'E': ([13, 19, 16], [2, 10, 6]),      # (2,2) design: t = 10/5 = 2.0 exactly, so a threshold of 2.0 sits ON the statistic
 }
 THRESH = (0.5, 3.0)
 TAILS = ('both', 'left', 'right')
@@ -80,6 +81,13 @@ def catalogue(thorough):
             for tail in TAILS:
                 cfgs.append({'n': 4, 'profile': prof, 'nx': nx, 'ny': ny, 'thresh': 0.5, 'tail': tail,
                              'paired': paired, 'k': 1})
+    # thresholds that coincide exactly with an attained statistic (strict '>' on observed and relabelled data alike)
+    for prof in itertools.product('PEZ', repeat=3):
+        if 'E' not in prof:
+            continue
+        for tail in TAILS:
+            cfgs.append({'n': 3, 'profile': ''.join(prof), 'nx': 2, 'ny': 2, 'thresh': 2.0, 'tail': tail,
+                         'paired': False, 'k': 1})
     # 9-node designs whose relabelled data split into two components where the one with more nodes has fewer
     # connections (4-clique vs 5-star): "largest" must be measured in connections
     pairs9 = ss.und_pairs(9)
